@@ -525,6 +525,38 @@ func expand(s Scenario) []Scenario {
 			}
 			return out
 		}
+		if st.Op == "send" && st.Chunking == "nextsplits" {
+			// one chunk = the first i requests completely plus 1 byte / half / all but one byte of request i+1; the rest follows
+			ends := []int{}
+			n := 0
+			for _, r := range st.Reqs {
+				n += len(r.encode())
+				ends = append(ends, n)
+			}
+			var out []Scenario
+			for i := 0; i+1 < len(ends); i++ {
+				next := ends[i+1] - ends[i]
+				seen := map[int]bool{}
+				for _, k := range []int{1, next / 2, next - 1} {
+					if k < 1 || k >= next || seen[k] {
+						continue
+					}
+					seen[k] = true
+					c := s
+					c.Steps = append([]Step{}, s.Steps...)
+					c.Steps[si].Chunking = "split"
+					c.Steps[si].At = ends[i] + k
+					out = append(out, c)
+				}
+			}
+			if len(out) == 0 {
+				c := s
+				c.Steps = append([]Step{}, s.Steps...)
+				c.Steps[si].Chunking = "whole"
+				out = append(out, c)
+			}
+			return out
+		}
 		if st.Op == "send" && st.Chunking == "allsplits" {
 			n := 0
 			for _, r := range st.Reqs {
